@@ -18,7 +18,7 @@ func init() { checks["C14"] = c14 }
 func c14(args []string) {
 	c := chk.New("C14", "exploration", args)
 	c.Build(false)
-	c.Rule("in-process batches (subject mode 'tempdir'): Task.TempDir() of tasks built with the public NewTask for identities (process name, in-port -> path, sub-stream members, parameters, tags) enumerated exhaustively over a small alphabet (names {a,b,ab,A}; paths over segments {a,b,ab,c}, relative and absolute; 0-2 parameters / tags with values {a,b,ab,a_b,b_c}; sub-streams of 0-2 members) and drawn randomly from large ones (names up to 420 bytes incl. every length 1..420, deep paths); oracle: identities are grouped by TempDir(): two different identities with the same directory are a collision; every identity is evaluated 8 times from freshly built maps (stability); every identity is evaluated again in a second process (stability across runs); every name is one path segment of 1..255 bytes. distinct_nontrivial = distinct identities evaluated")
+	c.Rule("in-process batches (subject mode 'tempdir'): Task.TempDir() of tasks built with the public NewTask for identities (process name, in-port -> path, sub-stream members, parameters, tags) enumerated exhaustively over a small alphabet (names {a,b,ab,A}; paths over segments {a,b,ab,c}, relative and absolute; 0-2 parameters / tags with values {a,b,ab,a_b,b_c}; sub-streams of 0-2 members) and drawn randomly from large ones (names up to 420 bytes incl. every length 1..420, deep paths); oracle: identities are grouped by TempDir(): two different identities with the same directory are a collision; every identity is evaluated 8 times from freshly built maps (stability); every identity is evaluated again in a second process (stability across runs); every name is one path segment of 1..255 bytes; identities that differ only in a special value (printf / date verbs with different flags, blanks, case, non-ASCII, shell metacharacters) as parameter value, tag value and process name; parameter names differing only in case. distinct_nontrivial = distinct identities evaluated")
 	c.Assume("identities are compared on cleaned paths", "known finding: the hash pre-image is a separator-less concatenation of the pieces; collisions between identities whose reference pre-images are equal are reported as KNOWN-FINDING, every other collision is a violation")
 	rng := c.Rand("c14")
 	cases := gen.TDExhaustive(c.Thorough())
